@@ -7,6 +7,9 @@
 #include <sched.h>
 #include <set>
 #include <unordered_set>
+#include <functional>
+#include <string>
+#include <vector>
 
 #include "Tools.hh"
 #include "common.hh"
@@ -135,6 +138,77 @@ int main(int argc, char** argv) {
     c.count("progress_callback_calls", prog_calls.load());
     if (i < 3) c.sample("stress " + desc);
   }
+  // Narrow cursor types with ranges that span most of the type (but stay clear of the documented overshoot wrap:
+  // end + num_threads*block <= max): every value exactly once / hit found, also for uint8_t, uint16_t, int16_t, uint32_t.
+  {
+    auto narrow = [&](auto tag, const char* tname, uint64_t maxv, int64_t minv) {
+      typedef decltype(tag) T;
+      uint64_t reps = c.qt<uint64_t>(40, 600) / c.nshards + 2;
+      for (uint64_t i = 0; i < reps && c.nviol() < 50; i++) {
+        size_t nthreads = 1 + r.below(8);
+        int kind = (int)r.below(3);
+        uint64_t block = kind == 0 ? 1 : (uint64_t[]){1, 2, 5, 10}[r.below(4)];
+        uint64_t span = maxv - (uint64_t)minv;  // width of the type
+        uint64_t room = span - nthreads * block - 1;
+        // range length: mostly more than half of the type's span
+        uint64_t n = r.chance(3, 4) ? room / 2 + r.below(room / 2) : r.below(room);
+        if (n > 60000) n = 30000 + r.below(30000);  // keep 32-bit cases cheap
+        n -= n % block;
+        int64_t start = minv + (int64_t)r.below(room - n + 1);
+        if (sizeof(T) == 4 && r.chance(1, 2)) start = (int64_t)(maxv - nthreads * block - 1 - n);  // hug the top of the type
+        int64_t end = start + (int64_t)n;
+        int style = (int)r.below(3);
+        int64_t hit = n ? start + (int64_t)r.below(n) : start;
+        std::vector<std::atomic<uint8_t>> cnt(n ? n : 1);
+        for (auto& x : cnt) x.store(0, std::memory_order_relaxed);
+        std::atomic<uint64_t> outside{0}, badtn{0};
+        std::string desc = fmt("%s<%s> threads=%zu start=%" PRId64 " n=%" PRIu64 " block=%" PRIu64 " style=%d", kind == 0 ? "range" : kind == 1 ? "blocks" : "multi", tname, nthreads, start, n, block, style);
+        c.crumb_s(desc);
+        std::function<bool(T, size_t)> fn = [&](T v, size_t tn) -> bool {
+          int64_t idx = (int64_t)v - start;
+          if (idx < 0 || idx >= (int64_t)n) { outside++; return false; }
+          if (tn >= nthreads) { badtn++; return false; }
+          cnt[idx].fetch_add(1, std::memory_order_relaxed);
+          return style == 1 && (int64_t)v == hit;
+        };
+        T result = (T)end;
+        std::unordered_set<T> multi;
+        try {
+          if (kind == 0) result = phosg::parallel_range<T>(fn, (T)start, (T)end, nthreads, nullptr);
+          else if (kind == 1) result = phosg::parallel_range_blocks<T>(fn, (T)start, (T)end, (T)block, nthreads, nullptr);
+          else multi = phosg::parallel_range_blocks_multi<T>(fn, (T)start, (T)end, (T)block, nthreads, nullptr);
+        } catch (const std::exception& e) {
+          c.violation("stress:narrow:unexpected-exception", e.what(), desc);
+        }
+        c.evaluations++;
+        const char* k = kind == 0 ? "range" : kind == 1 ? "blocks" : "multi";
+        if (outside.load()) c.violation(fmt("stress:narrow:%s:value-outside-range", k), "callback invoked outside [start,end)", desc);
+        if (badtn.load()) c.violation(fmt("stress:narrow:%s:thread-num-out-of-range", k), "thread_num >= num_threads", desc);
+        bool hitmode = (style == 1 && n > 0 && kind != 2);
+        for (uint64_t j = 0; j < n; j++) {
+          unsigned x = cnt[j].load();
+          if (x > 1) { c.violation(fmt("stress:narrow:%s:value-invoked-twice", k), fmt("value %" PRId64 " invoked %u times", start + (int64_t)j, x), desc); break; }
+          if (x == 0 && !hitmode) { c.violation(fmt("stress:narrow:%s:value-not-exactly-once", k), fmt("value %" PRId64 " never invoked", start + (int64_t)j), desc); break; }
+        }
+        if (kind == 2) {
+          size_t want = (style == 1 && n > 0) ? 1 : 0;
+          if (multi.size() != want || (want && !multi.count((T)hit))) c.violation("stress:narrow:multi:result-set", fmt("returned %zu values, expected %zu", multi.size(), want), desc);
+        } else if (hitmode) {
+          if ((int64_t)result != hit) c.violation(fmt("stress:narrow:%s:result-not-a-hit", k), fmt("returned %" PRId64 ", the only hit is %" PRId64, (int64_t)result, hit), desc);
+        } else if ((int64_t)result != end) {
+          c.violation(fmt("stress:narrow:%s:return-not-end", k), fmt("returned %" PRId64, (int64_t)result), desc);
+        }
+        c.cls(fmt("stress:narrow:%s:%s:%s", tname, k, n * 2 > span ? "over-half-span" : "under-half-span"));
+        if (i == 0) c.sample("narrow " + desc);
+      }
+    };
+    narrow((uint8_t)0, "u8", 0xFF, 0);
+    narrow((uint16_t)0, "u16", 0xFFFF, 0);
+    narrow((int16_t)0, "i16", 0x7FFF, -0x8000);
+    narrow((uint32_t)0, "u32", 0xFFFFFFFFull, 0);
+    narrow((int8_t)0, "i8", 0x7F, -0x80);
+  }
+
   // late callbacks from workers that were not joined would show up here
   usleep(50000);
   if (late.load()) c.violation("stress:callback-after-return", fmt("%" PRIu64 " callback(s) ran after the call had returned", late.load()), "any");
